@@ -4,7 +4,9 @@ SPEC = dict(
     lean_modules=["Qx.Props.C07"],
     props_files=["lean/Qx/Props/C07.lean"],
     drivers=["qxdriver_c07"],
-    harnesses=[dict(name="iqtable", asan=False, driver="qxdriver_c07")],
+    harnesses=[dict(name="iqtable", asan=False, driver="qxdriver_c07"),
+               # part G (re-entrant continuations): harness AND library sanitizer-instrumented, every scenario in a forked child
+               dict(name="iqreent", asan="lib", driver="qxdriver_c07")],
     translators=["promise_sites.py"],
     exhaustive=True,
     rule="(A) op sequences over {QXmppClient::sendIq(id,to), OutgoingIqManager::sendIq(packet,id,to), finish(id,send error), "
